@@ -342,6 +342,12 @@ func verif_client_login(svr *Service) {
 	if err != nil {
 		verif.Ensures(svr.runID == runID0, "refused_or_failed_login_keeps_the_run_id")
 	}
+	// C14 "tunnels heal themselves": the wait for the server's answer is bounded
+	// by a read deadline on the connection, so a server that accepts the
+	// connection and stays silent cannot wedge the login loop
+	if verif.Called("msg.ReadMsgInto") {
+		verif.Ensures(verif.CalledBefore("Conn).SetReadDeadline", "msg.ReadMsgInto") && verif.Same(verif.NthArg[any]("Conn).SetReadDeadline", 0, 0), verif.NthArg[any]("msg.ReadMsgInto", 0, 0)), "answer_awaited_under_a_read_deadline")
+	}
 	if lm, isLogin := verif.NthArg[msg.Message]("msg.WriteMsg", 0, 1).(*msg.Login); verif.Called("msg.WriteMsg") && isLogin {
 		verif.Ensures(lm.RunID == runID0, "login_presents_the_run_id_of_the_previous_session")
 	}
